@@ -290,8 +290,9 @@ CONFIG = {
                    "names_invariant_writeName / names_invariant_writeRecord (compression-table invariant, exact restore on roll-back), "
                    "encode_no_panic, labels_escape (registration escaping inverted by the wire writer), parseEscaped_no_empty. The size bound and "
                    "the round trip carry the hypothesis questionsSize <= 8972, which is the known defect D17. The encoder model is compared BYTE "
-                   "FOR BYTE with DnsOutgoing::to_data_on_wire of the working tree on every run and the conclusion of encode_sound (plus: no "
-                   "record left out that would fit; the crate's own decoder agrees) is evaluated with the same reference reader on the real packets.",
+                   "FOR BYTE with DnsOutgoing::to_data_on_wire of the working tree on every run; the conclusion of encode_sound in decidable form "
+                   "(soundCore, theorem soundCore_holds) is evaluated with the same reference reader on the REAL packets, plus: no record left "
+                   "out that would fit; the crate's own decoder agrees.",
         partial=["decode_agrees (the crate's own decoder reads the same content) is stated in Props/C02.lean as part of `C02_full` but not proved; "
                  "it is checked on the real packets of every run by the monitor clauses own-decoder-rejects / own-decoder-differs",
                  "that a left-out record did not fit is checked by the monitor (clause dropped-record-that-fits), in the model it is the "
